@@ -81,6 +81,11 @@ const (
 	Version byte = 1
 )
 
+// maxUnixTime is the largest Unix timestamp that time.Time can represent. Its
+// seconds counter starts in year 1, 62135596800 seconds before the Unix epoch,
+// so larger values wrap around and compare as lying in the distant past.
+const maxUnixTime = math.MaxInt64 - 62135596800
+
 // SHA3Fingerprint is used to identify the parent of a Certificate.
 type SHA3Fingerprint = [SHA3Len]byte
 
@@ -267,7 +272,7 @@ func (c *Certificate) ReadFrom(r io.Reader) (int64, error) {
 	if err != nil {
 		return bytesRead, err
 	}
-	if t > math.MaxInt64 {
+	if t > maxUnixTime {
 		return bytesRead, errors.New("issue timestamp too large")
 	}
 	bytesRead += 8
@@ -277,7 +282,7 @@ func (c *Certificate) ReadFrom(r io.Reader) (int64, error) {
 	if err != nil {
 		return bytesRead, err
 	}
-	if t > math.MaxInt64 {
+	if t > maxUnixTime {
 		return bytesRead, errors.New("expires timestamp too large")
 	}
 	bytesRead += 8
